@@ -1224,3 +1224,57 @@ package pub
 //@ [C20] ensures serves_stored_value: isASRequest && err == nil ==> servedValue == delegateValue && lastBody == servedJSON && status == (tomb ? 410 : 200)
 //@ [C20] ensures headers: isASRequest && err == nil ==> sentHdr["Content-Type"] == "application/ld+json; profile=\"https://www.w3.org/ns/activitystreams\"" && sentHdr["Digest"] == "SHA-256=" + b64(arrbytes(sha256arr(lastBody), 32)) && sentHdr["Date"] == timeFormat(utcOf(clockAt(nowTick)), "Mon, 02 Jan 2006 15:04:05") + " GMT"
 //@ [C20] ensures not_found: isASRequest && delegateValue == nil && old(held == emp) ==> (err != nil) && bodyWrites == old(bodyWrites)
+
+// ---------------------------------------------------------------------------
+// C19: the bundled HTTP-signature transport (pub/transport.go). The ghost log of the signer and of
+// the HTTP client is declared in /verif/spec/45_transport.spec.
+
+//@ func pub.isSuccess
+//@ params code
+//@ [C19] ensures ok_created_accepted_only: result == (code == 200 || code == 201 || code == 202)
+
+//@ func pub.NewHttpSigTransport
+//@ params client, appAgent, clock, getSigner, postSigner, pubKeyId, privKey
+//@ [C19] ensures keeps_its_arguments: result != nil && result.client == client && result.appAgent == appAgent && result.clock == clock && result.getSigner == getSigner && result.postSigner == postSigner && result.pubKeyId == pubKeyId && result.privKey == privKey
+//@ [C19] ensures library_agent: result.gofedAgent == goFedUserAgent()
+//@ [C19] ensures one_mutex_per_signer: result.getSignerMu != nil && result.postSignerMu != nil && result.getSignerMu != result.postSignerMu && fresh(result.getSignerMu) && fresh(result.postSignerMu)
+
+//@ func (pub.HttpSigTransport).Deliver
+//@ params h, c, b, to
+//@ [C19] requires configured: h.client != nil && h.clock != nil && h.postSigner != nil && h.postSignerMu != nil && to != nil
+//@ [C19] requires no_mutex_held: !muHeld[h.postSignerMu]
+//@ modifies nDo, doReq, doHdrMap, doHdr, doMethod, doURL, doBody, doErrNil, doStatus, doRespBody, nSign, signSigner, signKey, signKeyId, signReq, signHdrMap, signBodyNil, signBody, signHdrPre, signHdrPost, sigV1, sigV2, sigV3, hdr, reqMethod, reqURL, reqBody, readerBytes, muHeld, nowTick
+//@ [C19] ensures at_most_one_request: nDo == old(nDo) || nDo == old(nDo) + 1
+//@ [C19] ensures signed_exactly_once_before_sending: nDo == old(nDo) + 1 ==> nSign == old(nSign) + 1 && signHdrMap == doHdrMap
+//@ [C19] ensures post_to_the_recipient: nDo == old(nDo) + 1 ==> doMethod == "POST" && doURL == str(to)
+//@ [C19] ensures sends_the_bytes_it_signed: nDo == old(nDo) + 1 ==> doBody == old(bytesof(b)) && signBody == old(bytesof(b)) && signBodyNil == old(isnil(b))
+//@ [C19] ensures signed_with_post_signer_and_actor_key: nDo == old(nDo) + 1 ==> signSigner == h.postSigner && signKey == h.privKey && signKeyId == h.pubKeyId
+//@ [C19] ensures date_header: nDo == old(nDo) + 1 ==> doHdr["Date"] == timeFormat(utcOf(clockAt(nowTick)), "Mon, 02 Jan 2006 15:04:05") + " GMT"
+//@ [C19] ensures host_header: nDo == old(nDo) + 1 ==> doHdr["Host"] == to.Host
+//@ [C19] ensures user_agent_app_then_library: nDo == old(nDo) + 1 ==> doHdr["User-Agent"] == h.appAgent + " " + h.gofedAgent
+//@ [C19] ensures content_type_header: nDo == old(nDo) + 1 ==> doHdr["Content-Type"] == "application/ld+json; profile=\"https://www.w3.org/ns/activitystreams\""
+//@ [C19] ensures headers_set_before_signing: nDo == old(nDo) + 1 ==> signHdrPre["Date"] == doHdr["Date"] && signHdrPre["Host"] == doHdr["Host"] && signHdrPre["User-Agent"] == doHdr["User-Agent"] && signHdrPre["Content-Type"] == doHdr["Content-Type"]
+//@ [C19] ensures not_altered_after_signing: nDo == old(nDo) + 1 ==> doHdr == signHdrPost
+//@ [C19] ensures succeeds_only_for_200_201_202: result == nil <==> (nDo == old(nDo) + 1 && doErrNil && (doStatus == 200 || doStatus == 201 || doStatus == 202))
+//@ [C19] ensures mutex_released: muHeld == old(muHeld)
+//@ [C19] at call github.com/go-fed/httpsig.Signer.SignRequest#1: assert signer_used_under_its_mutex: muHeld[h.postSignerMu]
+
+//@ func (pub.HttpSigTransport).Dereference
+//@ params h, c, iri
+//@ [C19] requires configured: h.client != nil && h.clock != nil && h.getSigner != nil && h.getSignerMu != nil && iri != nil
+//@ [C19] requires no_mutex_held: !muHeld[h.getSignerMu]
+//@ modifies nDo, doReq, doHdrMap, doHdr, doMethod, doURL, doBody, doErrNil, doStatus, doRespBody, nSign, signSigner, signKey, signKeyId, signReq, signHdrMap, signBodyNil, signBody, signHdrPre, signHdrPost, sigV1, sigV2, sigV3, hdr, reqMethod, reqURL, reqBody, readerBytes, muHeld, nowTick
+//@ [C19] ensures at_most_one_request: nDo == old(nDo) || nDo == old(nDo) + 1
+//@ [C19] ensures signed_exactly_once_before_sending: nDo == old(nDo) + 1 ==> nSign == old(nSign) + 1 && signHdrMap == doHdrMap
+//@ [C19] ensures get_of_the_iri_without_body: nDo == old(nDo) + 1 ==> doMethod == "GET" && doURL == str(iri) && doBody == noBody() && signBodyNil
+//@ [C19] ensures signed_with_get_signer_and_actor_key: nDo == old(nDo) + 1 ==> signSigner == h.getSigner && signKey == h.privKey && signKeyId == h.pubKeyId
+//@ [C19] ensures date_header: nDo == old(nDo) + 1 ==> doHdr["Date"] == timeFormat(utcOf(clockAt(nowTick)), "Mon, 02 Jan 2006 15:04:05") + " GMT"
+//@ [C19] ensures host_header: nDo == old(nDo) + 1 ==> doHdr["Host"] == iri.Host
+//@ [C19] ensures user_agent_app_then_library: nDo == old(nDo) + 1 ==> doHdr["User-Agent"] == h.appAgent + " " + h.gofedAgent
+//@ [C19] ensures accept_header: nDo == old(nDo) + 1 ==> doHdr["Accept"] == "application/ld+json; profile=\"https://www.w3.org/ns/activitystreams\""
+//@ [C19] ensures headers_set_before_signing: nDo == old(nDo) + 1 ==> signHdrPre["Date"] == doHdr["Date"] && signHdrPre["Host"] == doHdr["Host"] && signHdrPre["User-Agent"] == doHdr["User-Agent"] && signHdrPre["Accept"] == doHdr["Accept"]
+//@ [C19] ensures not_altered_after_signing: nDo == old(nDo) + 1 ==> doHdr == signHdrPost
+//@ [C19] ensures body_only_for_200: result1 == nil ==> nDo == old(nDo) + 1 && doErrNil && doStatus == 200 && bytesof(result0) == readAllOf(doRespBody)
+//@ [C19] ensures no_body_otherwise: !(nDo == old(nDo) + 1 && doErrNil && doStatus == 200) ==> result1 != nil && len(result0) == 0
+//@ [C19] ensures mutex_released: muHeld == old(muHeld)
+//@ [C19] at call github.com/go-fed/httpsig.Signer.SignRequest#1: assert signer_used_under_its_mutex: muHeld[h.getSignerMu]
